@@ -318,6 +318,23 @@ def _getattr_const(tree: ast.AST) -> None:
         ast.fix_missing_locations(tree)
 
 
+def _ufunc_compare(tree: ast.AST) -> None:
+    """`np.less(a, b)` is `a < b` (and greater / less_equal / greater_equal / equal / not_equal likewise) for two positional
+    arguments: the comparison operators of arrays are these ufuncs."""
+    ops = {"less": ast.Lt, "greater": ast.Gt, "less_equal": ast.LtE, "greater_equal": ast.GtE, "equal": ast.Eq, "not_equal": ast.NotEq}
+
+    class T(ast.NodeTransformer):
+        def visit_Call(self, n):
+            self.generic_visit(n)
+            f = n.func
+            if isinstance(f, ast.Attribute) and isinstance(f.value, ast.Name) and f.value.id in ("np", "numpy") and f.attr in ops and len(n.args) == 2 and not n.keywords \
+                    and not any(isinstance(a, ast.Starred) for a in n.args):
+                return ast.copy_location(ast.Compare(left=n.args[0], ops=[ops[f.attr]()], comparators=[n.args[1]]), n)
+            return n
+    T().visit(tree)
+    ast.fix_missing_locations(tree)
+
+
 def _split_star_unpack(tree: ast.AST) -> None:
     """`*head, last = TABLE` / `first, *rest = TABLE` with TABLE a literal tuple / list (written there, or a module-level name bound
     once to one) is `head = (e0, .., e_{n-2}); last = e_{n-1}`: the rest of the pipeline then sees literal tables again."""
@@ -1456,6 +1473,7 @@ class Program:
                 _split_star_unpack(tree)
                 _unroll_literal_loops(tree)
                 _getattr_const(tree)
+                _ufunc_compare(tree)
                 _split_star_unpack(tree)
                 tree = _SplitTupleAssign().visit(tree)
                 _splat_literal_dicts(tree)
